@@ -208,9 +208,16 @@ def run_job(job, ctx):
             bad = damage(g.data, t, kind)
             files = dict(neighbours)
             files[name] = bad
-            mode = r.choice(["scan", "list", "diff", "diff-glob"])
+            mode = r.choice(["scan", "list", "diff", "diff-glob", "scan-symlink"])
             root = run.make_repo(files)
             try:
+                if mode == "scan-symlink":
+                    # the damaged file is a symbolic link to a regular file kept in a hidden directory (not walked itself)
+                    import os
+                    store = ".store/" + name.replace("/", "_")
+                    run.write_files(root, {store: bad})
+                    os.unlink(os.path.join(root, name))
+                    os.symlink(os.path.relpath(os.path.join(root, store), os.path.dirname(os.path.join(root, name))), os.path.join(root, name))
                 if mode == "diff-glob":
                     # the damaged file is named by the diff but matches none of the positional globs: still in scope
                     other = sorted(neighbours)[0] if neighbours else "nothing/**"
